@@ -2,11 +2,11 @@
 # MANIFEST.setup_cmd: build the framework from files on disk only (offline).
 . /verif/env.sh
 cd /verif || exit 2
-mkdir -p work/bin evidence replays
-if [ -d rewrite ] && ls rewrite/*.go >/dev/null 2>&1; then
-  go build -o work/bin/rewrite ./rewrite || exit 2
-fi
+mkdir -p work/bin work/lock evidence replays
+go build -o work/bin/rewrite ./rewrite || exit 2
 if [ -d cmd/vchild ]; then go build -o work/bin/vchild ./cmd/vchild || exit 2; fi
-# warm the build cache
-go build -tags verif -o work/bin/vdrv.new ./cmd/vdrv || exit 2
+# generate the overlay from the current /repo tree and warm the build cache
+work/bin/rewrite -repo /repo -out work/overlay || exit 2
+go build -tags verif -overlay work/overlay/overlay.json -o work/bin/vdrv.new ./cmd/vdrv || exit 2
+ls keys/*.pem > /dev/null || { echo "key pool missing"; exit 2; }
 echo setup ok
